@@ -130,12 +130,60 @@ def handleVia : List String → String
     | _, _, _, _, _ => "bad-op"
   | other => handleSingle other
 
+/-! ### `cfsite`: a Caddyfile site block through the real adapter -/
+
+def isAlnum (c : UInt8) : Bool := (97 ≤ c && c ≤ 122) || (65 ≤ c && c ≤ 90) || (48 ≤ c && c ≤ 57)
+
+def hostTokByte (c : UInt8) : Bool := isAlnum c || c == 46 || c == 42 || c == 95 || c == 45
+def keyPathByte (c : UInt8) : Bool := isAlnum c || (str "./*_-%~").contains c
+def patTokByte (c : UInt8) : Bool := isAlnum c || (str "./*_-%?[]^~:@+=,;!$&()").contains c
+
+def digitsVal (ds : Bytes) : Nat := ds.foldl (fun n d => n * 10 + (d.toNat - 48)) 0
+
+/-- `[http://]host[:port][/path]`, host or port present, port 1..65535 (and not 443 under http://) -/
+def siteKeyOk (key : Bytes) : Bool :=
+  let rest := dropScheme key
+  let hp := rest.takeWhile (· != cSlash)
+  let path := rest.dropWhile (· != cSlash)
+  let host := hp.takeWhile (· != cColon)
+  let portPart := hp.dropWhile (· != cColon)
+  let port := portPart.drop 1
+  host.all hostTokByte && path.all (fun c => keyPathByte c || c == cSlash) &&
+  (portPart.isEmpty || (!port.isEmpty && port.all (fun c => 48 ≤ c && c ≤ 57) && decide (port.length ≤ 5) &&
+     decide (1 ≤ digitsVal port) && decide (digitsVal port ≤ 65535) &&
+     !(hasPrefix key httpScheme && digitsVal port == 443))) &&
+  !(host.isEmpty && portPart.isEmpty) && !containsSub rest [58, 47, 47]
+
+def parseMode : String → Option TokMode
+  | "none" => some .none | "star" => some .star | "implicit" => some .implicit | "named" => some .named
+  | _ => none
+
+def cfTokensOk (mode : TokMode) (hosts pats : List Bytes) : Bool :=
+  hosts.all (fun h => !h.isEmpty && h.all hostTokByte) && pats.all (fun p => !p.isEmpty && p.all patTokByte) &&
+  (match mode with
+   | .none => hosts.isEmpty && pats.isEmpty
+   | .star => hosts.isEmpty && pats.isEmpty
+   | .implicit => hosts.isEmpty && pats.length == 1 && pats.all (fun p => p.head? == some cSlash)
+   | .named => !(hosts.isEmpty && pats.isEmpty))
+
+def handleSite : List String → String
+  | ["cfsite", key, mode, hosts, pats, rhost, p, e] =>
+    match Hex.decode key, parseMode mode, parseList hosts, parseList pats, Hex.decode rhost, Hex.decode p, Hex.decode e with
+    | some key, some mode, some hs, some ps, some h, some p, some e =>
+      if !(siteKeyOk key && cfTokensOk mode hs ps && isAscii h && isAscii p && isAscii e) then "ood"
+      else if !escConsistent p e then "bad-op"
+      else match siteCase largeThreshold key mode hs ps h p e with
+        | .dup => "err:dup"
+        | .res b => showBool b
+    | _, _, _, _, _, _, _ => "bad-op"
+  | other => handleVia other
+
 def handle : List String → String
   | ["pathpair", kind, pats, p1, e1, p2, e2] =>
     match parseList pats, Hex.decode p1, Hex.decode e1, Hex.decode p2, Hex.decode e2 with
     | some l, some p1, some e1, some p2, some e2 => handlePair kind l p1 e1 p2 e2
     | _, _, _, _, _ => "bad-op"
-  | other => handleVia other
+  | other => handleSite other
 
 /-! ### the counter-examples proved in `Witness.lean` -/
 
